@@ -35,3 +35,26 @@ func ZZ_SMOKE_dbg() {
 		zz.Observe("err", e.ErrorField+" | "+e.HintField+" | "+e.DebugField)
 	}
 }
+
+// ZZ_SMOKE_symredirect: symbolic redirect_uri and client at the token endpoint.
+func ZZ_SMOKE_symredirect() {
+	w := world.New(world.Options{})
+	code, _, err := w.AuthorizeCode("c1", []string{"offline", "photos"}, nil)
+	zz.Assume(err == nil)
+	ru := zz.String("redirect", 24)
+	cl := zz.String("client", 4)
+	resp, err := w.Token(cl, world.Secret1, map[string][]string{
+		"grant_type":   {"authorization_code"},
+		"code":         {code},
+		"redirect_uri": {ru},
+	})
+	zz.Observe("err", world.ErrName(err))
+	if err == nil {
+		zz.Cover("success", true)
+		zz.Assert(ru == "https://c1.example/cb", "redeemed only with the same redirect_uri")
+		zz.Assert(cl == "c1", "redeemed only by the same client")
+		zz.Assert(resp.GetAccessToken() != "", "token")
+	} else {
+		zz.Cover("refused", true)
+	}
+}
